@@ -31,7 +31,7 @@ def run(tier, seed):
         tracecheck.VALIDATE_CFG[0] = cfg
         tracecheck.BASE[0] = base
         try:
-            c = tracecheck.run_corpus("C19", "c19_" + label, ss, v, shards=8, net=net, light=True)
+            c = tracecheck.run_corpus("C19", "c19_" + label, ss, v, shards=4 if net == "mainnet" else 8, net=net, light=True)
         finally:
             tracecheck.VALIDATE_CFG[0] = "TraceRef.cfg"
             tracecheck.BASE[0] = 0
